@@ -88,7 +88,8 @@ HL(id)        == [e |-> FALSE, id |-> id]      \* history entry of a layer
 HE(name)      == [e |-> TRUE, id |-> name]     \* empty_layer entry ("a1", "a2": ARG a<k>)
 NewDesc(has, dig, t) == [has |-> has, dig |-> dig, t |-> t]   \* has: MediaType # "", dig: Digest # ""
 NoDesc        == NewDesc(FALSE, FALSE, Tok("", 0, "", "", "", TRUE))
-DagLayer(mod, desc, nd, uc, base) == [mod |-> mod, desc |-> desc, nd |-> nd, uc |-> uc, base |-> base]
+\* inl: the descriptor carries inline data, so BlobGet serves the layer from memory, not from the repository
+DagLayer(mod, desc, nd, uc, base) == [mod |-> mod, desc |-> desc, nd |-> nd, uc |-> uc, base |-> base, inl |-> FALSE]
 
 CompOf(im, i) == IF im.comp = "mixed" THEN <<"gzip", "zstd", "none">>[((i - 1) % 3) + 1] ELSE im.comp
 LayerId(tag, i) == tag \o <<"1", "2", "3">>[i]
@@ -108,7 +109,7 @@ Child(im, p) ==
    L |-> [i \in 1..im.n |-> SrcTok(im, "L", i)],
    D |-> [i \in 1..im.n |-> Diff(LayerId("L", i), 0)],
    H |-> HistOf(im.hist, "L", 0, 0),
-   dls |-> [i \in 1..im.n |-> DagLayer("unchanged", SrcTok(im, "L", i), NoDesc, NoDiff, FALSE)],
+   dls |-> [i \in 1..im.n |-> [DagLayer("unchanged", SrcTok(im, "L", i), NoDesc, NoDiff, FALSE) EXCEPT !.inl = im.data /\ i = 1]],
    ddata |-> im.data,          \* the manifest's own descriptor (from the index entry) carries inline data
    annos |-> {},               \* annotation groups added by this run: "l2a", "x", "base" (for WithAnnotationPromoteCommon)
    cdata |-> (IF im.data THEN "right" ELSE "none"),    \* inline data of the config descriptor
@@ -190,7 +191,9 @@ StaticNoop(o) ==
        [] RegM(o) -> \A m \in ms : ~ChgM(o, m)
        [] RegC(o) -> \A c \in 1..Len(Plats(img)) : ~ChgC(o, Plats(img)[c], Child(img, Plats(img)[c]))
        [] OTHER -> TRUE
-NoopProg == \A j \in 1..Len(prog) : StaticNoop(prog[j])
+\* (of several WithData options only the last one counts)
+NoopProg == \A j \in 1..Len(prog) :
+              (prog[j].k = "Data" /\ (\E q \in (j + 1)..Len(prog) : prog[q].k = "Data")) \/ StaticNoop(prog[j])
 
 ----------------------------------------------------------------------------
 (* manifest phase: dagWalkManifests runs every manifest step on the children first, then on the top *)
@@ -353,7 +356,7 @@ LayerWalk(dl, sL, sF) ==
                  [dl |-> [dlB EXCEPT !.nd = NewDesc(FALSE, TRUE, [dlB.desc EXCEPT !.mt = "", !.ok = FALSE])], err |-> ""]
             [] rdrB = "fresh" ->       \* an added layer re-pushed unchanged: newDesc gets digest and size only
                  [dl |-> [dlB EXCEPT !.nd = IF dlB.nd.has THEN dlB.nd ELSE NewDesc(FALSE, TRUE, [dlB.desc EXCEPT !.mt = ""])], err |-> ""]
-            [] rdrB = "wrappedDC" /\ src = "dir" /\ ~FixClose ->   \* the deferred second Close leaves the inner step's digest
+            [] rdrB = "wrappedDC" /\ src = "dir" /\ ~dl.inl /\ ~FixClose ->   \* the deferred second Close (of a file) leaves the inner step's digest
                  [dl |-> [dlB EXCEPT !.nd.t.ok = FALSE], err |-> ""]
             [] OTHER -> [dl |-> dlB, err |-> ""]
 
